@@ -886,6 +886,10 @@ func TestVerifC14(t *testing.T) {
 			// keep the direct backend aligned
 			e.dback.fl.QueueLeafF(&trillian.QueueLeafRequest{Leaf: &trillian.LogLeaf{LeafValue: []byte{1}, ExtraData: junk}})
 		}
+		// stop tracing this instance before the model is reset: a late detached cache fill must not land after it
+		ind.rec.mu.Lock()
+		ind.rec.trace = false
+		ind.rec.mu.Unlock()
 		out.T("reset", "ok")
 
 		// --- concurrent phase (run under -race): writers and readers, faults at random calls
@@ -1178,7 +1182,9 @@ func (e *c14Env) concurrent(cc c14CacheCfg, pool []c14Sub) {
 	// afterwards, without faults, every entry must be served identically
 	ind.rec.mu.Lock()
 	ind.rec.faultPct = 0
+	ind.rec.trace = false
 	ind.rec.mu.Unlock()
+	e.out.T("reset", "ok")
 	dback.mu.Lock()
 	for _, l := range dback.leaves {
 		want.Store(string(l.LeafValue), l.ExtraData)
